@@ -59,7 +59,7 @@ fn build_seq<'e, 'c>(r: &R, base: &'e Expr, calls: &'c [Call<'e>], k: usize, sub
     if calls.is_empty() || !(calls[0].method == "iter" || calls[0].method == "into_iter") || !calls[0].args.is_empty() {
         return None;
     }
-    let spec = r.opts.loops.get(&k);
+    let spec = r.opts.loop_spec(k, CUR_TERM.with(|t| t.borrow().clone()).as_str());
     let src_mode_key = if sub == 0 { "src".to_string() } else { format!("src{}", sub) };
     let src_mode = spec.and_then(|s| s.opts.get(&src_mode_key)).map(|s| s.as_str()).unwrap_or("own");
     let sname = if sub == 0 { format!("qx_s{}", k) } else { format!("qx_s{}_{}", k, sub) };
@@ -143,6 +143,9 @@ fn build_seq<'e, 'c>(r: &R, base: &'e Expr, calls: &'c [Call<'e>], k: usize, sub
     Some((seq, used))
 }
 
+thread_local! { static CUR_TERM: std::cell::RefCell<String> = std::cell::RefCell::new(String::new()); }
+thread_local! { static CLONE_ELEMS: std::cell::Cell<bool> = std::cell::Cell::new(false); }
+
 fn bind(r: &R, pat: &Pat, elem: &Elem, copy: bool, out: &mut Vec<String>) {
     match pat {
         Pat::Wild(_) => {}
@@ -151,7 +154,9 @@ fn bind(r: &R, pat: &Pat, elem: &Elem, copy: bool, out: &mut Vec<String>) {
             let m = if pi.mutability.is_some() { "mut " } else { "" };
             match elem {
                 Elem::Place(p) => {
-                    if copy {
+                    if copy && CLONE_ELEMS.with(|c| c.get()) {
+                        out.push(format!("let {}{} = {}.clone();", m, x, p))
+                    } else if copy {
                         out.push(format!("let {}{} = {};", m, x, p))
                     } else {
                         out.push(format!("let {}{} = &{};", m, x, p))
@@ -216,11 +221,18 @@ pub fn rw_chain(r: &R, e: &Expr) -> Option<String> {
         Expr::MethodCall(mc) => mc,
         _ => return None,
     };
-    let term = mc.method.to_string();
-    if !TERMINALS.contains(&term.as_str()) {
+    let mut term = mc.method.to_string();
+    let lazy = term == "map" && r.opts.has_rw("lazy_as_vec");
+    if !TERMINALS.contains(&term.as_str()) && !lazy {
         return None;
     }
-    let (base, calls) = flatten(e);
+    let (base, mut calls) = flatten(e);
+    if lazy {
+        // a lazy `.map(c)` chain handed to flat_map / returned from a closure is consumed completely: materialise it
+        r.note("R2 lazy iterator chain materialised as Vec (consumed completely by the caller's flat_map)");
+        calls.push(Call { method: "collect".to_string(), args: vec![] });
+        term = "collect".to_string();
+    }
     if term == "collect" && calls.len() == 3 && calls[0].method == "into_iter" && calls[1].method == "chain" && calls[1].args.len() == 1 {
         let (b2, c2) = flatten(calls[1].args[0]);
         if c2.len() == 1 && c2[0].method == "into_iter" {
@@ -246,7 +258,8 @@ pub fn rw_chain(r: &R, e: &Expr) -> Option<String> {
     let calls = &calls[src_idx..];
     // all calls between source and the terminal must be adapters we know
     let k = r.loop_ctr.get();
-    let spec = match r.opts.loops.get(&k) {
+    CUR_TERM.with(|t| *t.borrow_mut() = term.clone());
+    let spec = match r.opts.loop_spec(k, &term) {
         Some(s) => s.clone(),
         None => {
             r.err(format!("iterator chain `{}` needs a `//@loop {}` section", first_line(r.verb(e.span())), k));
@@ -255,7 +268,9 @@ pub fn rw_chain(r: &R, e: &Expr) -> Option<String> {
     };
     r.loop_ctr.set(k + 1);
     let (seq, used) = build_seq(r, recv, calls, k, 0)?;
-    let copy = spec.opts.get("elem").map(|s| s == "copy").unwrap_or(false);
+    let copy = spec.opts.get("elem").map(|s| s == "copy" || s == "clone").unwrap_or(false);
+    let clone_elems = spec.opts.get("elem").map(|s| s == "clone").unwrap_or(false);
+    CLONE_ELEMS.with(|c| c.set(clone_elems));
     let i = format!("qx_i{}", k);
     let n = format!("qx_n{}", k);
     let res = format!("qx_r{}", k);
